@@ -2008,6 +2008,24 @@ impl Dlmalloc {
         self.footprint
     }
 
+    /// Visits every segment record, newest (the one holding `top`) first:
+    /// `f(segment index, base address, size)`.
+    ///
+    /// # Safety
+    /// The heap must be in a consistent state (no call in progress).
+    pub unsafe fn verif_segments(&self, f: &mut dyn FnMut(usize, usize, usize)) {
+        if self.top.is_null() {
+            return;
+        }
+        let mut seg_idx = 0;
+        let mut s = ptr::addr_of!(self.seg).cast_mut();
+        while !s.is_null() {
+            f(seg_idx, (*s).base as usize, (*s).size);
+            seg_idx += 1;
+            s = (*s).next;
+        }
+    }
+
     /// Visits every chunk of every segment in address order within a segment:
     /// `f(segment index, chunk address, chunk size, kind)` with kind 0 = free (binned),
     /// 1 = in use, 2 = designated victim, 3 = top.
